@@ -128,8 +128,9 @@ def run_check(prop: str, tier: str) -> int:
 
     items, batches = build_items(engine, tier, scale)
     # determinism sample + written-out samples
-    n_det = int(os.environ.get(
-        "VERIF_DET_SAMPLE", "24" if tier == "quick" else "200"))
+    det_default = getattr(engine, "DET_SAMPLE", {}).get(
+        tier, 24 if tier == "quick" else 200)
+    n_det = int(os.environ.get("VERIF_DET_SAMPLE", str(det_default)))
     n_det = min(n_det, len(items))
     step = max(1, len(items) // max(1, n_det))
     det_keys = [items[i][0] for i in range(0, len(items), step)][:n_det]
@@ -237,7 +238,9 @@ def run_check(prop: str, tier: str) -> int:
     if det_keys and not harness_errors \
             and os.environ.get("VERIF_SKIP_SELFTEST") != "1":
         det_items = [item_by_key[k] for k in det_keys]
-        w2 = 3 if workers != 3 else 5
+        w2 = int(getattr(engine, "SECOND_POOL_WORKERS", 3))
+        if w2 == workers:
+            w2 += 2
         pool2 = core.Pool(prop.lower(), root, w2, hard_cap=cap)
         try:
             res2 = pool2.run(det_items, chunk=max(1, chunk // 2))
